@@ -435,4 +435,16 @@ theorem proj_saturated (lon : ℝ) (h : 256 ≤ lon * (4 / π)) :
   congr 2
   · push_cast; ring
   · ring
+
+#print axioms proj_unproj
+#print axioms proj_unproj_neg_zero
+#print axioms proj_unproj_at_eight
+#print axioms proj_unproj_clamped_right
+#print axioms proj_unproj_clamped_left
+#print axioms proj_unproj_near_pole
+#print axioms proj_range
+#print axioms proj_periodic
+#print axioms proj_two_pi
+#print axioms proj_zero_equatorial
+#print axioms proj_saturated
 end Hpx.Proj
